@@ -30,9 +30,9 @@ LOWS = [0, 1, 2, 3, 5, 9, 16]
 
 
 def sync_section(R: int, t1: int, t2: int, tst: int, u: int, li: int, has_l: bool,
-                 aw: int, at: int, au: int) -> bool:
+                 aw: int, at: int, au: int, u0: int = 4) -> bool:
     """
-    pre: R >= 1 and 0 < t1 < t2 and tst >= 0 and u >= 0 and at >= 0 and au >= 0
+    pre: R >= 1 and 0 < t1 < t2 and tst >= 0 and u >= 0 and at >= 0 and au >= 0 and u0 >= 0
     pre: 0 <= li < len(LOWS) and 0 <= aw <= 2
     post: _
     """
@@ -40,7 +40,7 @@ def sync_section(R: int, t1: int, t2: int, tst: int, u: int, li: int, has_l: boo
     raws = [RAWS[r] for r in RIDX]
     low = H.pick(LOWS, li)
     a_tick = at if aw == 0 else ticks[min(aw, NB - 1)]          # anchor off / on a tempo tick
-    lines = [K.TS(0, 4)] + [K.B(ticks[i], raws[i]) for i in range(NB)]
+    lines = [K.TS(0, u0)] + [K.B(ticks[i], raws[i]) for i in range(NB)]
     lines.insert(2, K.A(a_tick, au))                            # Moonscraper writes A next to B
     lines.append(K.TS(tst, u, low) if has_l else K.TS(tst, u))
     bpm = [int(r) / 1000 for r in raws]
@@ -71,7 +71,7 @@ def sync_section(R: int, t1: int, t2: int, tst: int, u: int, li: int, has_l: boo
         e = be[i]
         ok = ok and e.tick == ticks[i] and e.bpm == bpm[i] and e.timestamp.us == stamps[i] and e._proximal_bpm_event_index == i
     e = st.time_signature_events[0]
-    ok = ok and e.tick == 0 and e.timestamp.us == 0 and e.upper_numeral == 4 and e.lower_numeral == 4
+    ok = ok and e.tick == 0 and e.timestamp.us == 0 and e.upper_numeral == u0 and e.lower_numeral == 4
     e = st.time_signature_events[1]
     ok = ok and e.tick == tst and e.timestamp.us == stamps[g] + MULT[bpm[g]] * (tst - ticks[g])
     ok = ok and e.upper_numeral == u and e.lower_numeral == (2 ** low if has_l else 4) and q.us == e.timestamp.us
